@@ -1,6 +1,6 @@
 (** * C11 — all physical implementations of an operator agree.
     Only statements, each closed by [exact], with its assumptions printed. *)
-From RL Require Import Model.Exec Proofs.ExecP Proofs.MergeJoinP Proofs.MergeLeftP Proofs.SortAggP Proofs.SimpleAggP Proofs.WideKeysP Proofs.MergeRightP.
+From RL Require Import Model.Exec Proofs.ExecP Proofs.MergeJoinP Proofs.MergeLeftP Proofs.SortAggP Proofs.SimpleAggP Proofs.WideKeysP Proofs.MergeRightP Proofs.MergeFullP.
 From Coq Require Import Permutation.
 Open Scope Z_scope.
 
@@ -47,11 +47,21 @@ Theorem merge_left_outer_rows : forall lk rk nl nr L R, sorted_on lk (concat L) 
   x_mergejoin JLeft lk rk nl nr L R = left_rows_spec lk rk nr (concat L) (concat R).
 Proof. exact mergejoin_left_rows. Qed.
 
+Theorem merge_left_outer_eq_hash : forall lk rk nl nr L R, sorted_on lk (concat L) -> sorted_on rk (concat R) ->
+  Permutation (x_mergejoin JLeft lk rk nl nr L R) (x_hashjoin JLeft lk rk nl nr L R).
+Proof. exact mergejoin_left_eq_hashjoin. Qed.
+
 (** the RIGHT OUTER merge join over sorted inputs returns the rows of the RIGHT OUTER hash join (every right row with its
     matches, or NULL-padded on the left), as bags *)
 Theorem merge_right_outer_eq_hash : forall lk rk nl nr L R, sorted_on lk (concat L) -> sorted_on rk (concat R) ->
   Permutation (x_mergejoin JRight lk rk nl nr L R) (x_hashjoin JRight lk rk nl nr L R).
 Proof. exact mergejoin_right_eq_hashjoin. Qed.
+
+(** and the FULL OUTER merge join the rows of the FULL OUTER hash join: those of the right outer join plus every left row
+    without a match (a NULL in its key, or no right row with that key) padded with NULLs on the right *)
+Theorem merge_full_outer_eq_hash : forall lk rk nl nr L R, sorted_on lk (concat L) -> sorted_on rk (concat R) ->
+  Permutation (x_mergejoin JFull lk rk nl nr L R) (x_hashjoin JFull lk rk nl nr L R).
+Proof. exact mergejoin_full_eq_hashjoin. Qed.
 
 (** sort aggregation (one group per run of equal consecutive keys) over input sorted on the group keys
     = hash aggregation, as LISTS: same groups in the same first-seen order, same aggregate values *)
@@ -108,7 +118,9 @@ Print Assumptions joins_independent_of_chunking.
 Print Assumptions merge_inner_eq_hash.
 Print Assumptions merge_inner_eq_nested_loop.
 Print Assumptions merge_left_outer_rows.
+Print Assumptions merge_left_outer_eq_hash.
 Print Assumptions merge_right_outer_eq_hash.
+Print Assumptions merge_full_outer_eq_hash.
 Print Assumptions sort_aggregation_eq_hash_aggregation.
 Print Assumptions simple_aggregation_eq_rowwise.
 Print Assumptions topn_eq_sort_then_limit.
